@@ -411,8 +411,9 @@ PROPS['C17'] = {
 }
 
 PROPS['C03'] = {
-    'targets': ['props/C03.vo'],
-    'theorems': [('props.C03', n) for n in ['c03_sample', 'c03_sample_range', 'c03_unscaled', 'c03_scaled', 'c03_default_range']],
+    'targets': ['props/C03.vo', 'props/C16.vo'],
+    'theorems': [('props.C03', n) for n in ['c03_sample', 'c03_sample_range', 'c03_unscaled', 'c03_scaled', 'c03_default_range']]
+                + [('props.C16', n) for n in ['c03_range_is_device', 'c16_every_history', 'c16_i2c_every_history']],
     'corr_gen': lambda api, rng, n: data_programs(api, rng, n),
     'corr_n': (300, 4000),
     'monitor': None,
@@ -420,7 +421,9 @@ PROPS['C03'] = {
     'judge': judge_getters,
     'statement': 'Measurement::to_i16 equals the 12-bit sign extension of (lsb, low nibble of msb) on all 65,536 byte pairs; '
                  'get_unscaled_data / get_data are one 6-byte burst read from 0x04 followed by a panic-free decode that returns the '
-                 'sign-extended samples times 2^(bits 7:6 of the shadow ACC_CONFIG1) for all data bytes and ranges; the reset value selects 4 g',
+                 'sign-extended samples times 2^(bits 7:6 of the shadow ACC_CONFIG1) for all data bytes and ranges; the reset value selects 4 g; '
+                 'history clause: the shadow ACC_CONFIG1 is the device\'s after every history of calls with rejected / bus-failed requests, self-tests and resets '
+                 '(c03_range_is_device on top of the C16 invariant, over T_reg and over I2C at HAL level)',
     'rule': 'monitor: byte pairs at the sign / nibble boundaries and random pairs on every axis x 4 ranges, after histories with rejected '
             'and bus-failed range changes, self-tests and soft resets',
 }
@@ -442,8 +445,13 @@ def data_programs(api, rng, n, thorough=False):
         for _ in range(rng.randint(0, 4)):
             kind = rng.random()
             if kind < 0.45:
-                calls.append(Call('config_accel', setters=[('with_scale', [rng.choice(['Range2G', 'Range4G', 'Range8G', 'Range16G'])])],
-                                  faults=[rng.randint(0, 2)] if rng.random() < 0.25 else []))
+                st = [('with_scale', [rng.choice(['Range2G', 'Range4G', 'Range8G', 'Range16G'])])]
+                # several registers in one request, so that a fault can hit a write before or after the one carrying the range
+                if rng.random() < 0.5:
+                    st.append(('with_reg_dta_src', [rng.choice(['AccFilt1', 'AccFilt2', 'AccFilt2Lp'])]))
+                if rng.random() < 0.5:
+                    st.insert(0, ('with_power_mode', [rng.choice(['Sleep', 'LowPower', 'Normal'])]))
+                calls.append(Call('config_accel', setters=st, faults=[rng.randint(0, 2)] if rng.random() < 0.35 else []))
             elif kind < 0.6:
                 # a request that is rejected (tap needs 200 Hz / generic on filter 1 needs 100 Hz)
                 calls.append(Call('config_interrupts', setters=[('with_d_tap_int', [True])]))
@@ -854,8 +862,20 @@ def mon_c13(api, rng, budget, variants):
                 msg = 'constructor %s issued %r, expected %r' % (p.ctor, got, want)
         if msg:
             viol.append(violation('C13', p, msg))
+    # under bus and pin failures: whatever fails, no byte may be clocked while chip-select is high (a failed pin call leaves the level unchanged)
+    faulted = api_programs(api, rng, max(60, budget // 2), ctors=('spi', 'spi3'), fault_rate=0.35)
+    faulted += [q for q in fault_sweep_programs(api, rng, ('spi',), max_k=8)][:max(60, budget // 2)]
+    for i, q in enumerate(faulted):
+        q.id = 'f13_%d' % i
+    fimpl = corr.run_impl(faulted, 'default', dump_each=True, tag='mon13f')
+    for q in faulted:
+        cases += 1
+        d = fimpl[q.id]['dumps']
+        if d and d[-1] != [0]:
+            viol.append(violation('C13', q, '%d byte(s) clocked while chip-select was high (calls with injected bus / pin failures)' % d[-1][0]))
     return {'cases': cases, 'violations': viol[:20], 'samples': [programs[0].describe()],
-            'notes': ['single ordered journal of pin edges and transfers decoded per chip-select window; both SPI constructors']}
+            'notes': ['single ordered journal of pin edges and transfers decoded per chip-select window; both SPI constructors; '
+                      'programs with injected bus and pin failures judged on the bytes the chip saw while chip-select was high']}
 
 
 def judge_c13(prog, recs):
@@ -921,8 +941,19 @@ def mon_c14(api, rng, budget, variants):
             if x.regs != y.regs:
                 viol.append(violation('C14', p, 'with the same register transaction failing on the bus, the device states differ after %r' % (x.call,)))
                 break
+    # the constructors under the same bus failure: the id read (and the SPI dummy read) failing on the bus must be reported alike
+    ct = []
+    for k, (fi, fs) in enumerate([([0], [5]), ([0], [6]), ([0], [1]), ([0], [2])]):
+        ct.append((Prog('ci%d' % k, 'i2c', [Call('get_id')], ctor_faults=fi), Prog('cs%d' % k, 'spi', [Call('get_id')], ctor_faults=fs)))
+    cimpl = corr.run_impl([x for pr in ct for x in pr], 'default', dump_each=True, tag='mon14c')
+    for p, q in ct:
+        x, y = implrun.records(p, cimpl[p.id])[0], implrun.records(q, cimpl[q.id])[0]
+        cases += 1
+        if (x.status, x.err) != (y.status, y.err):
+            viol.append(violation('C14', p, 'with the constructor\'s register read failing on the bus, new_i2c returns %s and new_spi returns %s' % (x.result_str(), y.result_str())))
     return {'cases': cases, 'violations': viol[:20], 'samples': [base[0].describe()],
             'notes': ['every program run over both real transports against identical simulated chips; decoded register-level journals, results and register files compared; '
+                      'constructors with the same register read failing on the bus over both transports; '
                       'plus every operation with the same register transaction failing on the bus over both transports']}
 
 
@@ -1484,6 +1515,11 @@ def builder_judge(pid):
     return j
 
 
+def wf_theorems():
+    d = json.load(open(os.path.join(COQ, 'spec/WfThms.json')))
+    return [('spec.WfThms', n) for k in ('apply', 'wfk', 'op') for n in d[k]]
+
+
 def builder_theorems():
     d = json.load(open(os.path.join(COQ, 'spec/builder_thms.json')))
     return [(m, n) for m, n in d['thm_mods']] + [('spec.BuilderProps', n) for n in d['device_theorems']]
@@ -1491,7 +1527,8 @@ def builder_theorems():
 
 BUILDER_PARTIAL = ('proved for all 12 builder write() bodies (accelerometer, interrupts, pin mapping, FIFO, auto-low-power, auto-wake-up, wake-up, '
                    'orientation, generic 1, generic 2, activity change, tap); side condition of each per-call theorem: shadow and request bytes are '
-                   'below 256 (u8 typing; not chained as a Coq invariant along histories, which is the part of C01 that stays PARTIAL)')
+                   'below 256 (u8 typing) - itself proved an invariant of every history of well-typed API calls at every exit (props/C01.v: '
+                   'c01_state_history, spec/WfThms.v)')
 for pid_, extra, stmt in (
     ('C01', ['props.C01'], 'per builder, from every coherent state and for every byte-valued request: rejected with nothing changed, or accepted with the shadow = '
             'previous shadow with the block replaced by the request, the device enables 0x1F/0x20/0x2F = the expected ones (temporarily cleared bits are '
@@ -1502,10 +1539,10 @@ for pid_, extra, stmt in (
             'and only if the device held a different one at call time; foreign enable registers follow clear-then-restore (toggle_ok), own ones own_ok; '
             're-applying the current configuration writes no block register'),
 ):
-    names = {'C01': ['c01_partial_history', 'c01_partial_fifo_instance'], 'C07': ['c07_meaning'], 'C08': ['c08_no_read', 'c08_entry_meaning', 'c08_reapply']}[pid_]
+    names = {'C01': ['c01_coherent_history', 'c01_fifo_instance', 'keepsw_self_test', 'step_keepsw', 'c01_wf_every_exit', 'c01_state_history', 'c01_initial_ready', 'c01_every_builder_call_ready'], 'C07': ['c07_meaning'], 'C08': ['c08_no_read', 'c08_entry_meaning', 'c08_reapply']}[pid_]
     PROPS[pid_] = {
-        'targets': ['spec/BuilderProps.vo', 'props/%s.vo' % pid_],
-        'theorems': (lambda names=names, pid_=pid_: builder_theorems() + [('props.' + pid_, n) for n in names]),
+        'targets': ['spec/BuilderProps.vo', 'props/%s.vo' % pid_] + (['spec/WfThms.vo'] if pid_ == 'C01' else []),
+        'theorems': (lambda names=names, pid_=pid_: builder_theorems() + [('props.' + pid_, n) for n in names] + (wf_theorems() if pid_ == 'C01' else [])),
         'corr_gen': lambda api, rng, n: builder_state_programs(api, rng, n),
         'corr_n': (250, 4000), 'monitor': builder_monitor(pid_), 'monitor_n': (500, 20000), 'judge': builder_judge(pid_),
         'statement': BUILDER_PARTIAL + '. ' + stmt,
